@@ -7,7 +7,7 @@
 EXTENDS Admission, Json
 VARIABLE hist
 GenInit == Init /\ hist = <<>>
-GenNext == \E c \in Cases : Submit(c) /\ hist' = <<[ev |-> "Cfg", N |-> N, V |-> V, endpoints |-> Endpoints],
+GenNext == phase = "idle" /\ \E c \in CasesOn(Paths) : Submit(c) /\ hist' = <<[ev |-> "Cfg", N |-> N, V |-> V, endpoints |-> Endpoints],
                                                    [ev |-> "Submit", c |-> c]>>
 GenSpec == GenInit /\ [][GenNext]_<<vars, hist>>
 Emit == hist = <<>> \/ PrintT("@@SCHED@@" \o ToJson(hist))
